@@ -21,6 +21,15 @@
 //	                   non-preserving endpoint N, one cycle after each edit
 //	                   (content edit on N, content edit on P, chmod on P); the
 //	                   oracle is evaluated for every cycle.
+//	r <A> <alpha> <beta>
+//	                   the real core.ReifyPhantomDirectories.
+//	cd / sd / hd       as c / s / h in sessions with Docker-style ignore syntax:
+//	                   the scripted snapshots hold phantom directories with
+//	                   (executable) files beneath, as a Docker-syntax scan
+//	                   reports them, on the non-preserving side or on both; the
+//	                   controller reifies them before propagating executability.
+//	                   Same oracle: the files below phantom directories exist on
+//	                   both sides, so the preserving side's bits must survive.
 package main
 
 import (
@@ -256,6 +265,11 @@ func relatedTriple(r *hx.Rand, keepBits bool) (A, P, N *core.Entry) {
 type runner struct {
 	c   *hx.Ctx
 	env *sessx.Env
+	// Docker-syntax histories: scans report the directories at these paths as
+	// phantom directories, on N only or on both endpoints.
+	docker      bool
+	phantom     []string
+	phantomBoth bool
 }
 
 func (rn *runner) session() *sessx.Env {
@@ -277,10 +291,14 @@ func perms(portable bool) core.PermissionsMode {
 }
 
 // sessionCycle runs one cycle of a fresh real session and renders it.
-func (rn *runner) sessionCycle(mode core.SynchronizationMode, portable bool, A, alpha, beta *core.Entry, pa, pb bool) (string, *core.Entry, *core.Entry) {
+func (rn *runner) sessionCycle(mode core.SynchronizationMode, portable, docker bool, A, alpha, beta *core.Entry, pa, pb bool) (string, *core.Entry, *core.Entry) {
 	env := rn.session()
+	cfg := sessx.Config(mode, perms(portable))
+	if docker {
+		cfg = sessx.ConfigDocker(mode, perms(portable))
+	}
 	w := &sessx.World{Alpha: &sessx.Side{Tree: alpha, Preserves: pa, StripExec: !pa}, Beta: &sessx.Side{Tree: beta, Preserves: pb, StripExec: !pb}}
-	s, err := env.NewFakeSession(sessx.Config(mode, perms(portable)), w)
+	s, err := env.NewFakeSession(cfg, w)
 	if err != nil {
 		panic(err)
 	}
@@ -305,6 +323,7 @@ type cycleCase struct {
 	mode      core.SynchronizationMode
 	modeName  string
 	portable  bool
+	docker    bool
 	pa, pb    bool
 	A, al, be *core.Entry
 }
@@ -317,7 +336,7 @@ func parseCycle(f []string) (*cycleCase, bool) {
 	if !ok {
 		return nil, false
 	}
-	k := &cycleCase{mode: m, modeName: f[1], portable: f[2] == "1", pa: f[3] == "1", pb: f[4] == "1"}
+	k := &cycleCase{mode: m, modeName: f[1], portable: f[2] == "1", pa: f[3] == "1", pb: f[4] == "1", docker: f[0] == "cd" || f[0] == "sd"}
 	var err error
 	if k.A, err = hx.DecEntry(f[5]); err != nil {
 		return nil, false
@@ -336,7 +355,7 @@ func (k *cycleCase) oracle(c *hx.Ctx, alphaAfter, betaAfter *core.Entry) string 
 		c.Count("oracle-not-applicable")
 		return ""
 	}
-	if corex.HasKind(k.al, core.EntryKind_PhantomDirectory) || corex.HasKind(k.be, core.EntryKind_PhantomDirectory) {
+	if !k.docker && (corex.HasKind(k.al, core.EntryKind_PhantomDirectory) || corex.HasKind(k.be, core.EntryKind_PhantomDirectory)) {
 		c.Count("oracle-skipped-phantom")
 		return ""
 	}
@@ -375,12 +394,34 @@ func (rn *runner) runLine(line string) (impl, verdict, key string) {
 			c.Count("p:changed-bits")
 		}
 		return
-	case "c":
+	case "r":
+		if len(f) != 4 {
+			return "bad-op", "", ""
+		}
+		A, e1 := hx.DecEntry(f[1])
+		al, e2 := hx.DecEntry(f[2])
+		be, e3 := hx.DecEntry(f[3])
+		if e1 != nil || e2 != nil || e3 != nil {
+			return "bad-op", "", ""
+		}
+		a2, b2, ca, cb := core.ReifyPhantomDirectories(A, al, be)
+		impl = hx.EncEntry(a2) + " " + hx.EncEntry(b2) + " " + fmt.Sprint(ca) + " " + fmt.Sprint(cb)
+		if hx.EncEntry(A) != f[1] || hx.EncEntry(al) != f[2] || hx.EncEntry(be) != f[3] {
+			verdict = "class=mutated-input an argument of ReifyPhantomDirectories was modified"
+		} else if corex.HasKind(a2, core.EntryKind_PhantomDirectory) || corex.HasKind(b2, core.EntryKind_PhantomDirectory) {
+			verdict = "class=phantom-left a phantom directory survived reification"
+		}
+		if hx.EncEntry(a2) != f[2] || hx.EncEntry(b2) != f[3] {
+			key = "r " + impl
+			c.Count("r:reified")
+		}
+		return
+	case "c", "cd":
 		k, ok := parseCycle(f)
 		if !ok {
 			return "bad-op", "", ""
 		}
-		r := sessx.RunPure(k.mode, k.portable, k.A, k.al, k.be, k.pa, k.pb)
+		r := sessx.RunPureSyntax(k.mode, k.portable, k.docker, k.A, k.al, k.be, k.pa, k.pb)
 		plan := "anc=- alpha=- beta=- conf=-"
 		if r.Reconciled {
 			plan = hx.EncPlan(r.Anc, r.Alpha, r.Beta, r.Conflicts)
@@ -388,27 +429,45 @@ func (rn *runner) runLine(line string) (impl, verdict, key string) {
 		impl = hx.EncEntry(r.AlphaContent) + " " + hx.EncEntry(r.BetaContent) + " " + r.Outcome + " " + plan +
 			" anc=" + hx.EncEntry(r.NewAncestor) + " alpha=" + hx.EncEntry(r.AlphaAfter) + " beta=" + hx.EncEntry(r.BetaAfter)
 		verdict = k.oracle(c, r.AlphaAfter, r.BetaAfter)
-		c.Count("c:" + k.modeName + ":" + r.Outcome)
+		c.Count(f[0] + ":" + k.modeName + ":" + r.Outcome)
 		if k.portable && k.pa != k.pb {
-			c.Count("c:one-side-preserves")
-			key = "c " + impl
+			c.Count(f[0] + ":one-side-preserves")
+			key = f[0] + " " + impl
 		}
 		return
-	case "s":
+	case "s", "sd":
 		k, ok := parseCycle(f)
 		if !ok {
 			return "bad-op", "", ""
 		}
-		out, a2, b2 := rn.sessionCycle(k.mode, k.portable, k.A, k.al, k.be, k.pa, k.pb)
+		out, a2, b2 := rn.sessionCycle(k.mode, k.portable, k.docker, k.A, k.al, k.be, k.pa, k.pb)
 		impl = out
 		verdict = k.oracle(c, a2, b2)
-		c.Count("s:" + k.modeName + ":" + strings.Fields(out)[0])
+		c.Count(f[0] + ":" + k.modeName + ":" + strings.Fields(out)[0])
 		if k.portable && k.pa != k.pb {
-			key = "s " + impl
+			key = f[0] + " " + impl
 		}
 		return
 	case "h":
 		return rn.history(f)
+	case "hd":
+		// hd <mode> <N is alpha> <n|b> <paths> <A> <P> <N> <ops>
+		if len(f) != 9 || (f[3] != "n" && f[3] != "b") {
+			return "bad-op", "", ""
+		}
+		var paths []string
+		if f[4] != "-" {
+			for _, q := range strings.Split(f[4], ",") {
+				d, err := hx.DecPath(q)
+				if err != nil {
+					return "bad-op", "", ""
+				}
+				paths = append(paths, d)
+			}
+		}
+		rn.phantom, rn.phantomBoth, rn.docker = paths, f[3] == "b", true
+		defer func() { rn.phantom, rn.phantomBoth, rn.docker = nil, false, false }()
+		return rn.history([]string{"h", f[1], f[2], f[5], f[6], f[7], f[8]})
 	}
 	return "bad-op", "", ""
 }
@@ -447,12 +506,19 @@ func (rn *runner) history(f []string) (impl, verdict, key string) {
 	}
 	env := rn.session()
 	pSide := &sessx.Side{Tree: P, Preserves: true}
-	nSide := &sessx.Side{Tree: N, Preserves: false, StripExec: true}
+	nSide := &sessx.Side{Tree: N, Preserves: false, StripExec: true, Phantom: rn.phantom}
+	if rn.phantomBoth {
+		pSide.Phantom = rn.phantom
+	}
+	hcfg := sessx.Config(mode, core.PermissionsMode_PermissionsModePortable)
+	if rn.docker {
+		hcfg = sessx.ConfigDocker(mode, core.PermissionsMode_PermissionsModePortable)
+	}
 	w := &sessx.World{Alpha: pSide, Beta: nSide}
 	if nAlpha {
 		w = &sessx.World{Alpha: nSide, Beta: pSide}
 	}
-	s, err := env.NewFakeSession(sessx.Config(mode, core.PermissionsMode_PermissionsModePortable), w)
+	s, err := env.NewFakeSession(hcfg, w)
 	if err != nil {
 		panic(err)
 	}
@@ -520,7 +586,11 @@ func (rn *runner) history(f []string) (impl, verdict, key string) {
 		outcome := strings.Fields(out)[0]
 		p2, n2 := trees()
 		items = append(items, outcome+":"+hx.EncEntry(p2)+":"+hx.EncEntry(n2))
-		c.Count("h:" + parts[0] + ":" + outcome)
+		if rn.docker {
+			c.Count("hd:" + parts[0] + ":" + outcome)
+		} else {
+			c.Count("h:" + parts[0] + ":" + outcome)
+		}
 		if verdict == "" {
 			verdict = sessx.ExecOracle(mode, nAlpha, anc, p, n, p2)
 		}
@@ -700,6 +770,153 @@ func main() {
 				}
 			}
 			run("h " + m.Name + " " + flag(r.Chance(1, 2)) + " " + hx.EncEntry(A) + " " + hx.EncEntry(P) + " " + hx.EncEntry(N) + " " + strings.Join(ops, ","))
+		}
+
+		// ---- docker streams: phantom directories ----
+
+		// r: ReifyPhantomDirectories on exhaustive small shapes, then random.
+		var rShapes []*core.Entry
+		for _, spec := range []string{"~", "F#01", "U", "D", "P", "D(a:Fx#01)", "P(a:Fx#01)", "P(a:U)", "P(a:P(b:F#01))",
+			"P(a:P(b:U))", "D(a:P(b:Fx#01))", "D(a:P(b:U),c:F#02)", "P(a:D)", "P(a:L@t)", "P(a:X!p)"} {
+			rShapes = append(rShapes, hx.MustEntry(spec))
+		}
+		var rAnc []*core.Entry
+		for _, spec := range []string{"~", "F#01", "D", "D(a:Fx#01)", "D(a:D(b:F#01))", "D(a:D)"} {
+			rAnc = append(rAnc, hx.MustEntry(spec))
+		}
+		for _, a := range rAnc {
+			for _, al := range rShapes {
+				for _, be := range rShapes {
+					run("r " + hx.EncEntry(a) + " " + hx.EncEntry(al) + " " + hx.EncEntry(be))
+					c.Count("exhaustive")
+				}
+			}
+		}
+		dirPaths := func(e *core.Entry) []string {
+			var out []string
+			for _, q := range hx.Paths(e) {
+				if hx.Lookup(e, q).Kind == core.EntryKind_Directory {
+					out = append(out, q)
+				}
+			}
+			return out
+		}
+		// somePhantom picks a random subset of the directories (biased to those
+		// that hold files) of a tree.
+		somePhantom := func(e *core.Entry) []string {
+			var out []string
+			for _, q := range dirPaths(e) {
+				if r.Chance(1, 2) {
+					out = append(out, q)
+				}
+			}
+			return out
+		}
+		for n := 0; n < c.Size(3000, 100000); n++ {
+			A, P, N := relatedTriple(r, r.Chance(1, 3))
+			if r.Chance(1, 4) {
+				A, P, N = hx.GenTriple(r, hx.TreeOpts{Unsync: true, Phantom: true, MaxDepth: 3, MaxKids: 3})
+			}
+			P = sessx.Phantomize(P, somePhantom(P))
+			N = sessx.Phantomize(N, somePhantom(N))
+			run("r " + hx.EncEntry(A) + " " + hx.EncEntry(P) + " " + hx.EncEntry(N))
+		}
+
+		// cd / sd: single cycles under Docker-style ignore syntax. The phantom
+		// directories sit on the non-preserving side only, or on both sides
+		// (the same ignores apply to both endpoints of a session).
+		dockerCycle := func(op string) {
+			m := hx.Modes[r.Intn(len(hx.Modes))]
+			A, P, N := relatedTriple(r, r.Chance(1, 6))
+			var ph []string
+			if r.Chance(2, 3) {
+				// the same paths on both sides (where they are directories)
+				ph = somePhantom(N)
+				N = sessx.Phantomize(N, ph)
+				if r.Chance(1, 2) {
+					P = sessx.Phantomize(P, ph)
+					c.Count(op + ":phantom-both")
+				} else {
+					c.Count(op + ":phantom-N")
+				}
+			} else {
+				N = sessx.Phantomize(N, somePhantom(N))
+				P = sessx.Phantomize(P, somePhantom(P))
+				c.Count(op + ":phantom-independent")
+			}
+			portable, pa, pb := true, true, false
+			switch r.Intn(14) {
+			case 0:
+				portable = false
+			case 1:
+				pb = true
+			}
+			al, be := P, N
+			if r.Chance(1, 2) && pa != pb {
+				pa, pb = pb, pa
+				al, be = N, P
+			}
+			run(cycleLine(op, m.Name, portable, pa, pb, A, al, be))
+		}
+		for n := 0; n < c.Size(6000, 200000); n++ {
+			dockerCycle("cd")
+		}
+		for n := 0; n < c.Size(700, 20000); n++ {
+			dockerCycle("sd")
+		}
+
+		// hd: histories under Docker-style ignore syntax; every scan reports the
+		// chosen directories as phantom.
+		for n := 0; n < c.Size(200, 6000); n++ {
+			m := hx.Modes[r.Intn(len(hx.Modes))]
+			P := execTree(r, 2+r.Intn(2))
+			if P.Kind != core.EntryKind_Directory {
+				P = &core.Entry{Kind: core.EntryKind_Directory, Contents: map[string]*core.Entry{"a": P, "b": execFile(r)}}
+			}
+			if r.Chance(1, 2) {
+				// the shape of the classic case: ignore `build`, unignore a script below it
+				P, _ = hx.Set(P, "build", &core.Entry{Kind: core.EntryKind_Directory, Contents: map[string]*core.Entry{
+					"tools": {Kind: core.EntryKind_Directory, Contents: map[string]*core.Entry{"run.sh": {Kind: core.EntryKind_File, Digest: []byte{1}, Executable: true}}}}})
+			}
+			N := strip(P)
+			A := P
+			switch r.Intn(5) {
+			case 0:
+				A = nil
+			case 1, 2:
+				N = &core.Entry{Kind: core.EntryKind_Directory}
+				A = nil
+			}
+			fp := filePaths(P)
+			if len(fp) == 0 {
+				continue
+			}
+			var ph []string
+			for _, q := range dirPaths(P) {
+				if q != "" && r.Chance(2, 3) {
+					ph = append(ph, hx.EncPath(q))
+				}
+			}
+			phs := "-"
+			if len(ph) > 0 {
+				phs = strings.Join(ph, ",")
+			}
+			k := 1 + r.Intn(8)
+			ops := make([]string, k)
+			for j := range ops {
+				q := hx.EncPath(fp[r.Intn(len(fp))])
+				switch r.Intn(6) {
+				case 0, 1:
+					ops[j] = "eN=" + q + "=" + hx.Hex([]byte{byte(1 + r.Intn(6))})
+				case 2, 3:
+					ops[j] = "xP=" + q
+				case 4:
+					ops[j] = "xP=" + hx.EncPath("nowhere") // a cycle without an edit
+				default:
+					ops[j] = "eP=" + q + "=" + hx.Hex([]byte{byte(1 + r.Intn(6))})
+				}
+			}
+			run("hd " + m.Name + " " + flag(r.Chance(1, 2)) + " " + r.Pick("n", "b") + " " + phs + " " + hx.EncEntry(A) + " " + hx.EncEntry(P) + " " + hx.EncEntry(N) + " " + strings.Join(ops, ","))
 		}
 	})
 }
